@@ -187,6 +187,29 @@ static scpi_bool_t findCommandHeader(scpi_t * context, const char * header, int 
 }
 
 /**
+ * Detect malformed parameter list of the last detected message unit
+ * @param state parser state filled by scpiParser_detectProgramMessageUnit
+ * @param unitEnd first character behind the message unit (including its terminator)
+ * @return TRUE if there is something else than white space between header and terminator
+ *         that is not a valid list of program data (e.g. "1," or incomplete "#15ab")
+ */
+static scpi_bool_t isMalformedProgramData(const scpi_parser_state_t * state, const char * unitEnd) {
+    const char * ptr;
+
+    if (state->numberOfParameters >= 0) {
+        return FALSE;
+    }
+
+    for (ptr = state->programData.ptr; ptr < unitEnd; ptr++) {
+        if ((*ptr != ' ') && (*ptr != '\t') && (*ptr != '\r') && (*ptr != '\n') && (*ptr != ';')) {
+            return TRUE;
+        }
+    }
+
+    return FALSE;
+}
+
+/**
  * Parse one command line
  * @param context
  * @param data - complete command line
@@ -212,6 +235,10 @@ scpi_bool_t SCPI_Parse(scpi_t * context, char * data, int len) {
 
         if (state->programHeader.type == SCPI_TOKEN_INVALID) {
             SCPI_ErrorPush(context, SCPI_ERROR_INVALID_CHARACTER);
+            result = FALSE;
+        } else if ((state->programHeader.len > 0) && isMalformedProgramData(state, data + r)) {
+            /* header followed by data that are not valid program data - do not execute the command */
+            SCPI_ErrorPush(context, SCPI_ERROR_INVALID_STRING_DATA);
             result = FALSE;
         } else if (state->programHeader.len > 0) {
 
